@@ -694,6 +694,27 @@ func c07Timestamps(fs *Facts, f *File) {
 		strings.Contains(ks, "SetModifiedAt(guardID, "+pair+".GetUpdatedAt().AsTime())") &&
 		strings.Contains(ks, "SetExpirationTime(guardID, "+pair+".GetExpiredAt().AsTime())")
 	where := "app/server/gateway/gateway.go:" + itoa(f.Line(po))
+	// every handler (GetByIndex, GetByIndexStream, GetByIndexStreamFromMany, ShiftMatching) hands BOTH bounds of
+	// its own request to parseOptionalTimestamps
+	for _, rel := range []string{"app/server/gateway/gateway.go", "app/server/gateway/gateway_shift_matching.go"} {
+		g, err := Load(rel)
+		if err != nil {
+			ok = false
+			continue
+		}
+		for _, c := range g.Calls(g.AST, "parseOptionalTimestamps") {
+			if len(c.Args) != 2 {
+				ok = false
+				continue
+			}
+			a0, a1 := g.Str(c.Args[0]), g.Str(c.Args[1])
+			if !strings.HasSuffix(a0, ".GetFromTime()") || !strings.HasSuffix(a1, ".GetToTime()") ||
+				strings.TrimSuffix(a0, ".GetFromTime()") != strings.TrimSuffix(a1, ".GetToTime()") {
+				ok = false
+				where = rel + ":" + itoa(g.Line(c))
+			}
+		}
+	}
 	if ok {
 		fs.Tri("timestampsFullPrecision", Yes, where)
 	}
